@@ -139,3 +139,53 @@ Proof.
   - intros k [].
   - exists ek1. split; [right; left; reflexivity|]. unfold leaf_df; simpl. discriminate.
 Qed.
+
+(* ---------- the real/imaginary pair of an elementary uncertain complex number is ONE term ----------
+   [okc s d]: the dependent vector d consists of ordinary elements (as above) and of adjacent
+   (real, imaginary) pairs of dependent elementary complex numbers declared without an ensemble.
+   [groups_c] is the specification of the loop's term list: each pair contributes the single
+   term  u_re^2 + 2 u_re r u_im + u_im^2  with the pair's dof (the covariance part is left out of
+   the term, not of the variance, when both components have infinite dof). *)
+From GTCV Require Import WSPairs.
+
+Theorem C05_real_result_with_complex_pairs :
+  forall (s : KTypes.state R) (o : KTypes.ureal R) c,
+    unode o = NoNode -> is_constant RNum o = false ->
+    leaves_exist s (uc o) -> dfs_positive s (uc o) ->
+    okc s (dc o) -> dfs_ok s (dc o) ->
+    (exists k, (In k (map fst (uc o)) \/ In k (map fst (dc o))) /\ leaf_df s k <> DInf) ->
+    let var := vsum (fun _ u => u * u) (uc o) + vtot s (dc o) in
+    let st := groups_c s (dc o) (rev (map (fun ku => (snd ku * snd ku, leaf_df s (fst ku))) (uc o)), []) in
+    let den := sum_terms var (fst st) + sum_terms var (map snd (snd st)) in
+    welch_satterthwaite RNum s o c =
+    Ok (var, (if Req_EM_T var 0 then DNaN else if Req_EM_T den 0 then DInf else DFin (1 / den)), c).
+Proof. exact ws_real_result_pairs. Qed.
+Print Assumptions C05_real_result_with_complex_pairs.
+
+(* the specification itself: a pair at the head of the vector is one term *)
+Theorem C05_pair_is_one_group :
+  forall (s : KTypes.state R) kr ur ki ui rest st,
+    leaf_cplx s kr = Some (kr, ki) ->
+    groups_c s ((kr, ur) :: (ki, ui) :: rest) st =
+    groups_c s rest ((vi ur + pcov s kr ur ki ui + vi ui, leaf_df s kr) :: fst st, snd st).
+Proof. exact groups_c_pair. Qed.
+Print Assumptions C05_pair_is_one_group.
+
+(* hence a result that depends only on the two components of one finite-dof elementary
+   complex number has exactly that number's dof *)
+Theorem C05_pair_dof :
+  forall (s : KTypes.state R) kr ur ki ui lr li nu c,
+    leaf_of RNum s kr = Ok lr -> leaf_of RNum s ki = Ok li ->
+    l_cplx lr = Some (kr, ki) -> l_cplx li = Some (kr, ki) -> kr <> ki ->
+    leaf_ens s kr = [] -> leaf_ens s ki = [] ->
+    l_df lr = DFin nu -> l_df li = DFin nu -> nu <> 0 ->
+    let o := mkU 0 [] [(kr, ur); (ki, ui)] [] NoNode in
+    let v := vi ur + pcov s kr ur ki ui + vi ui in
+    v <> 0 ->
+    welch_satterthwaite RNum s o c = Ok (v, DFin nu, c).
+Proof. exact pair_is_one_term. Qed.
+Print Assumptions C05_pair_dof.
+
+Example C05_pair_nonvacuous :
+  welch_satterthwaite RNum pair_state (mkU 0 [] [(kz1, 1); (kz2, 2)] [] NoNode) None = Ok (7, DFin 5, None).
+Proof. exact pair_example. Qed.
